@@ -272,7 +272,14 @@ def rule_own_fields(ctx: Ctx, rep: Report) -> None:
     rule_own_fields_forwarded(ctx, rep, "C17.own_fields", ('btclib.block.block', 'btclib.p2p.compact_blocks', 'btclib.p2p.block_filters', 'btclib.block.block_filter'), 8)
 
 
+def rule_params_forwarded_(ctx: Ctx, rep: Report) -> None:
+    """C17.params_forwarded: a parameter is handed on to callees that have a parameter of the same name (see sigcommon.rule_params_forwarded)."""
+    from rules.sigcommon import rule_params_forwarded
+    rule_params_forwarded(ctx, rep, "C17.params_forwarded", ('btclib.block', 'btclib.hashes', 'btclib.p2p.compact_blocks'), 30)
+
+
 RULES = [
+    ("C17.params_forwarded", rule_params_forwarded_),
     ("C17.own_fields", rule_own_fields),
     ("C17.filter_match", rule_filter_match),
     ("C17.same_attribute", rule_same_attribute),
